@@ -113,7 +113,11 @@ func prepare() *scratch {
 	if err != nil {
 		trouble("mktemp: %v", err)
 	}
-	cleanup = append(cleanup, func() { os.RemoveAll(dir) })
+	if os.Getenv("VERIF_KEEP_SCRATCH") == "" {
+		cleanup = append(cleanup, func() { os.RemoveAll(dir) })
+	} else {
+		fmt.Fprintln(os.Stderr, "[check] keeping scratch", dir)
+	}
 	sc := &scratch{dir: dir, repo: filepath.Join(dir, "repo"), bin: filepath.Join(dir, "hsim.test")}
 	sc.sites = filepath.Join(sc.repo, "verifsim_sites.txt")
 	if out, err := runCmd("/", "rsync", "-a", "--exclude", ".git", repoDir+"/", sc.repo+"/"); err != nil {
